@@ -175,6 +175,8 @@ class SetMembersMixin:
             self.members[name] = value  # type: ignore[attr-defined]
             if self.is_collection:  # type: ignore[attr-defined]
                 value._modules_collection = self  # type: ignore[union-attr]
+                # A top-level module has no parent (the module could have been a submodule before).
+                value.parent = None  # type: ignore[assignment]
             else:
                 value.parent = self  # type: ignore[assignment]
         else:
@@ -215,14 +217,15 @@ class SetMembersMixin:
                                 # Attach the new module first: merging moves members from one module to the other,
                                 # and a module that was a member of one of them before (its parent still says so)
                                 # would end up being its own ancestor.
-                                if not self.is_collection:  # type: ignore[attr-defined]
-                                    value.parent = self  # type: ignore[assignment]
+                                value.parent = None if self.is_collection else self  # type: ignore[attr-defined,assignment]
                                 with suppress(ValueError):
                                     value = merge_stubs(member, value)  # type: ignore[arg-type]
                     aliases = list(member.aliases.values())
             self.members[name] = value  # type: ignore[attr-defined]
             if self.is_collection:  # type: ignore[attr-defined]
                 value._modules_collection = self  # type: ignore[union-attr]
+                # A top-level module has no parent (the module could have been a submodule before).
+                value.parent = None  # type: ignore[assignment]
             else:
                 value.parent = self  # type: ignore[assignment]
             # Retarget aliases once the new member is attached,
